@@ -21,13 +21,13 @@ TraceLog == ndJsonDeserialize(IOEnv.TRACE)
 NONE == 255
 Inst == 0 .. 5
 
-VARIABLES l, mode, ref, pos, cmpi, nolog, copies, lastobs, saved, seen, csrc, xload, rop, bad, done
-xvars == <<l, mode, ref, pos, cmpi, nolog, copies, lastobs, saved, seen, csrc, xload, rop, bad, done>>
+VARIABLES l, mode, ref, pos, cmpi, nolog, copies, feat, lastobs, saved, seen, csrc, xload, rop, bad, done
+xvars == <<l, mode, ref, pos, cmpi, nolog, copies, feat, lastobs, saved, seen, csrc, xload, rop, bad, done>>
 
 NoObs == [act |-> NONE, ia |-> <<>>, on |-> 0, prev |-> <<255, 255, 0>>, plan |-> <<>>, pne |-> 0, pfirst |-> <<255, 255, 0>>, plast |-> <<255, 255, 0>>]
 ObsOf(e) == [act |-> e.act, ia |-> e.ia, on |-> e.on, prev |-> e.prev, plan |-> e.plan, pne |-> e.pne, pfirst |-> e.pfirst, plast |-> e.plast]
 
-Init == /\ l = 1 /\ mode = "none" /\ ref = <<>> /\ pos = 0 /\ cmpi = NONE /\ nolog = {2} /\ copies = {}
+Init == /\ l = 1 /\ mode = "none" /\ ref = <<>> /\ pos = 0 /\ cmpi = NONE /\ nolog = {2} /\ copies = {} /\ feat = FALSE
         /\ lastobs = [i \in Inst |-> NoObs] /\ saved = [bytes |-> 0 - 1, act |-> NONE] /\ seen = {} /\ csrc = NONE /\ xload = 999 /\ rop = "" /\ bad = {} /\ done = FALSE
 
 StripActs(acts) == [q \in 1 .. Len(acts) |-> [acts[q] EXCEPT !.lg = <<>>]]
@@ -46,12 +46,14 @@ Step ==
     /\ l' = l + 1 /\ UNCHANGED done
     /\ LET e == TraceLog[l] IN
        CASE e.e = "cfg" ->
-                /\ mode' = "none" /\ ref' = <<>> /\ pos' = 0 /\ cmpi' = NONE /\ nolog' = {2} /\ copies' = {}
+                /\ mode' = "none" /\ ref' = <<>> /\ pos' = 0 /\ cmpi' = NONE /\ nolog' = {2} /\ copies' = {} /\ feat' = FALSE
                 /\ lastobs' = [i \in Inst |-> NoObs] /\ saved' = [bytes |-> 0 - 1, act |-> NONE] /\ seen' = {} /\ csrc' = NONE /\ xload' = 999 /\ rop' = ""
                 /\ UNCHANGED bad
          [] e.e = "mark" ->
                 \* "twins": instance 1 is the same program built without the log interface, fed the same calls and decisions
-                /\ mode' = (IF e.k = "twins" THEN "lanes" ELSE e.k) /\ nolog' = (IF e.k = "twins" THEN {1} ELSE nolog)
+                \* "feat": instance 1 is the same program built with an additional feature it does not use (C19)
+                /\ mode' = (IF e.k \in {"twins", "feat"} THEN "lanes" ELSE e.k) /\ nolog' = (IF e.k = "twins" THEN {1} ELSE IF e.k = "feat" THEN {} ELSE nolog)
+                /\ feat' = (e.k = "feat")
                 /\ UNCHANGED <<ref, pos, cmpi, copies, lastobs, saved, seen, csrc, xload, rop, bad>>
          [] e.e \in {"call", "cb", "ret"} ->
                 LET i == e.i
@@ -68,7 +70,8 @@ Step ==
                     b1 == IF mismatch \/ short
                           \* a lane that never had a logger and is not itself a copy differs only in the logger: C16; a copy (of any lane) that
                           \* departs from the common history is attributed to copying (its logger-less source is compared on its own)
-                          THEN (IF (IF short THEN cmpi \in nolog \ copies ELSE logs /\ i \notin copies) THEN Find("C16", "an instance that never had a logger attached behaves differently from its logged twin (same calls, same callback decisions)")
+                          THEN (IF feat THEN Find("C19", "a program behaves differently when a feature it does not use is compiled in (same calls, same callback decisions)")
+                                ELSE IF (IF short THEN cmpi \in nolog \ copies ELSE logs /\ i \notin copies) THEN Find("C16", "an instance that never had a logger attached behaves differently from its logged twin (same calls, same callback decisions)")
                                 ELSE Find("C17", "two instances given the same calls and callback decisions behave differently (memory contents at construction / copy)"))
                           ELSE bad
                     \* ---- copies observe like their source
@@ -99,15 +102,16 @@ Step ==
                     /\ cmpi' = IF follower /\ newburst THEN i ELSE cmpi
                     /\ nolog' = IF isCopy /\ e.a \in nolog THEN nolog \cup {i} ELSE nolog
                     /\ copies' = IF isCopy THEN copies \cup {i} ELSE copies
+                    /\ UNCHANGED feat
                     /\ lastobs' = IF e.e = "ret" THEN [lastobs EXCEPT ![i] = ObsOf(e)] ELSE lastobs
                     /\ saved' = IF e.e = "ret" /\ e.op = "save" THEN [bytes |-> e.r, act |-> e.act] ELSE saved
                     /\ seen' = IF e.e = "ret" /\ e.op = "save" THEN seen \cup {<<e.r, e.act>>} ELSE seen
                     /\ UNCHANGED mode
-         [] OTHER -> UNCHANGED <<mode, ref, pos, cmpi, nolog, copies, lastobs, saved, seen, csrc, xload, rop, bad>>
+         [] OTHER -> UNCHANGED <<mode, ref, pos, cmpi, nolog, copies, feat, lastobs, saved, seen, csrc, xload, rop, bad>>
 
 Finish == /\ ~done /\ l > Len(TraceLog) /\ done' = TRUE
           /\ PrintT(<<"MONITOR-FINDINGS", bad>>)
-          /\ UNCHANGED <<l, mode, ref, pos, cmpi, nolog, copies, lastobs, saved, seen, csrc, xload, rop, bad>>
+          /\ UNCHANGED <<l, mode, ref, pos, cmpi, nolog, copies, feat, lastobs, saved, seen, csrc, xload, rop, bad>>
 
 Next == Step \/ Finish
 =============================================================================
